@@ -18,10 +18,10 @@ for name, f, old, new, props in MUT:
             print(name, "PATTERN NOT FOUND"); out[name] = "pattern-not-found"; continue
         open(os.path.join(a, f), "w").write(src)
         open(os.path.join(b, f), "w").write(src.replace(old, new, 1))
-        p = subprocess.run(["diff", "-u", os.path.join("a", f), os.path.join("b", f)], cwd=d, stdout=subprocess.PIPE, text=True)
+        p = subprocess.run(["diff", "-u", os.path.join("a", f), os.path.join("b", f)], cwd=d, stdout=subprocess.PIPE, text=True, errors="replace")
         patch = os.path.join(d, name + ".diff")
         open(patch, "w").write(p.stdout)
-        r = subprocess.run([os.path.join(V, "tools", "mutant_eval.py"), patch, "--props", ",".join(props)], stdout=subprocess.PIPE, stderr=subprocess.STDOUT, text=True)
+        r = subprocess.run([os.path.join(V, "tools", "mutant_eval.py"), patch, "--props", ",".join(props)], stdout=subprocess.PIPE, stderr=subprocess.STDOUT, text=True, errors="replace")
         last = r.stdout.strip().splitlines()[-1]
         try:
             s = json.loads(last)
